@@ -1,4 +1,191 @@
+"""C02 — regret bound from unsampled vanilla solve dominates the true regret."""
+import e4
+import facts
+import loops
+import q
+from facts import norm, short, strip_refs, is_const
+
+EXPLANATION = """
+That the accumulated counterfactual regrets are the right numbers is C08's structure plus the CFR
+theorem; the domination inequality is about magnitudes and is not decided. Decided on the MIR of the
+current tree (E4 signed-monomial forms, E5 expression forms, E10 player tags): (1) the form of
+RegretParams::cum_regret is exactly 2 * PosPart(max-reduce over the *whole* cumulative-regret slice)
+* inv(it as f64): coefficient 2 (each player's gain is bounded by the sum of both players' average
+regrets), through f64::max(., 0.0), reduced with f64::max by an identity map, degree -1 in the
+iteration index and no other dependence on it; (2) in all four solver loops the per-player bound is
+the `sum` over the entire infoset slice of that player of advance(it, params) with the loop's own
+induction variable, stored to that player's slot; (3) RegretBound::regret_bound is f64::max of both
+slots and player_regret_bound selects by PlayerNum::ind; (4) non-negativity — a sum of PosPart terms
+times positive constants; the initial INFINITY is overwritten on every path through the loop body
+(C09.O3). The early-stop clause is C09.
+"""
+ASSUMPTIONS = ['the CFR regret bound theorem (average counterfactual regret bounds total regret)', 'iterator sum / reduce have their std semantics']
+NOT_DECIDED = ['the inequality bound >= true regret as numbers', 'correctness of the accumulated counterfactual regrets as numbers']
+
+
 def bound_form(ctx, rule):
-    pass
+    """form of RegretParams::cum_regret (shared with C09.O6)"""
+    lib = ctx.lib
+    f = ctx.fn('lib', 'solve::data::RegretParams::cum_regret', rule)
+    if f is None:
+        return
+    r = q.ret_expr(f)
+    p = e4.try_poly(r)
+    ok = False
+    detail = 'form: %s' % e4.show_poly(p)
+    why = []
+    if p is not None and len(p) == 1:
+        (mono, coef), = p.items()
+        pos = [a for a in mono if a[0] == 'PosPart']
+        inv = [a for a in mono if a[0] == 'inv']
+        rest = [a for a in mono if a[0] not in ('PosPart', 'inv')]
+        if coef != 2.0:
+            why.append('coefficient is %g, not 2' % coef)
+        if len(pos) != 1:
+            why.append('%d positive-part factors' % len(pos))
+        if len(inv) != 1:
+            why.append('%d divisions' % len(inv))
+        if rest:
+            why.append('extra factors %s' % [e4.show_atom(a) for a in rest])
+        if len(pos) == 1:
+            inner = dict(pos[0][1])
+            red = None
+            if len(inner) == 1 and list(inner.values()) == [1.0] and len(list(inner)[0]) == 1 and list(inner)[0][0][0] == 'val':
+                red = list(inner)[0][0][1]
+            x = red
+            if x is not None and q.is_call(x, 'unwrap_or'):
+                x = strip_refs(x[2][0])
+            good_red = x is not None and q.is_call(x, 'reduce') and len(x[2]) == 2 and x[2][1][0] == 'fn' and short(x[2][1][1]) == 'max' and 'f64' in x[2][1][1]
+            if not good_red:
+                why.append('the positive part is not taken of an f64::max reduction')
+            else:
+                src = strip_refs(x[2][0])
+                whole = q.find_sub(src, lambda s: s[0] == 'param' and s[1] == 3) is not None and \
+                    not any(q.is_call(s, nm) for s in facts.walk(src) for nm in ('skip', 'take', 'filter', 'step_by', 'skip_while', 'take_while'))
+                ident = True
+                if q.is_call(src, 'map'):
+                    cf, _ = q.closure_of(lib, src[2][1])
+                    rr = strip_refs(q.ret_expr(cf)) if cf is not None else None
+                    ident = rr is not None and rr == ('param', 2, cf.local_name(2) or '')
+                    ctx.touch(cf)
+                if not whole:
+                    why.append('the reduction does not range over the whole cumulative-regret parameter')
+                if not ident:
+                    why.append('the mapped closure is not the identity')
+        if len(inv) == 1:
+            d = dict(inv[0][1])
+            it_ok = len(d) == 1 and list(d.values()) == [1.0] and list(d)[0] == (('cast', ('param', 2, f.local_name(2))),)
+            if not it_ok:
+                why.append('the divisor is not `it as f64`')
+        ok = not why
+    else:
+        why.append('not a single product')
+    ctx.verdict(ok, rule, '%s:cum_regret-form' % rule,
+                'the per-infoset bound is exactly 2 * max(max-reduce(cumulative regrets), 0) / it — factor 2, positive part, whole slice, divided by the iteration index (hence >= 0 or NaN)',
+                f.where(0), detail + ('; ' + '; '.join(why) if why else ''), breaks='the reported bound is halved, can be negative, or is mis-scaled by the iteration count: it no longer dominates the regret')
+
+
+def per_player_sums(ctx, rule):
+    """in all solver loops: bound[p] = sum over the whole slice of player p of advance(it, params), it = induction variable"""
+    lib = ctx.lib
+    ls = loops.find(lib)
+    if len(ls) < loops.FLOOR:
+        ctx.anchor_lost(rule, 'solver loops', 'found %d' % len(ls))
+    units = [(L.fn, L.body, L) for L in ls]
+    sp = ctx.fn('lib', 'solve::external::single_player_iter', rule)
+    for f, blocks, L in units + ([(sp, set(sp.reach), None)] if sp is not None else []):
+        ctx.touch(f)
+        n = 0
+        for bi, t, p in f.calls():
+            if bi not in blocks or short(p) != 'sum':
+                continue
+            e = f.call_expr(t, bi)
+            mp = q.find_sub(e, lambda x: q.is_call(x, 'map'))
+            if mp is None or len(mp[2]) < 2:
+                continue
+            cf, agg = q.closure_of(lib, mp[2][1])
+            if cf is None:
+                continue
+            adv = [(bj, tt, cf.call_expr(tt, bj)) for bj, tt, pp in cf.calls() if short(pp) == 'advance']
+            if not adv:
+                continue
+            n += 1
+            ctx.touch(cf)
+            src = strip_refs(mp[2][0])
+            chain = []
+            x = strip_refs(e[2][0])
+            while x[0] == 'call' and x[2] and x != src:
+                chain.append(short(x[1]))
+                x = strip_refs(x[2][0])
+            whole = src[0] == 'call' and short(src[1]) in ('iter_mut', 'par_iter_mut') and chain == ['map']
+            # iteration index argument: the closure's captured `it` resolved in the parent
+            ae = adv[0][2]
+            it_arg = strip_refs(q.subst_upvars(lib, cf, ae[2][1]))
+            if L is not None:
+                it_ok = it_arg == L.it[1] or it_arg == ('var', L.it[0], f.local_name(L.it[0])) or norm(it_arg) == norm(L.it[1])
+            else:
+                it_ok = it_arg[0] == 'param' and f.locals[it_arg[1]]['ty'] == 'u64'
+            par_arg = strip_refs(q.subst_upvars(lib, cf, ae[2][2]))
+            par_ok = par_arg[0] in ('param', 'upvar')
+            ctx.verdict(whole and it_ok and par_ok, rule, '%s:%s#%d' % (rule, q.top(f.name), n),
+                        'a per-player bound is the sum over the *entire* infoset slice of advance(it, params) with the loop\'s own iteration index',
+                        f.where(bi), 'whole slice: %s; it argument %s is the induction variable: %s; params passed through: %s' % (whole, facts.show(it_arg)[:30], it_ok, par_ok),
+                        breaks='some infosets do not contribute to the bound, or the bound is scaled by the wrong iteration count')
+        want = {'solve_generic_single': 1, 'solve_generic_multi': 1, 'solve_external_single': 2, 'single_player_iter': 1, 'solve_external_multi': 0}
+        nm = q.top(f.name).split('::')[-1]
+        if nm in want and n != want[nm]:
+            ctx.anchor_lost(rule, '%s: per-player bound sums' % nm, 'found %d of %d' % (n, want[nm]))
+    # external multi: reg_k = single_player_iter::<k>(.., it, ..) with the induction variable
+    for L in ls:
+        f = L.fn
+        if 'solve_external_multi' not in f.name:
+            continue
+        for bi, t, e in q.calls_named(f, 'single_player_iter'):
+            it_arg = strip_refs(e[2][5])
+            ok = it_arg == L.it[1] or norm(it_arg) == norm(L.it[1])
+            cargs = [a for a in t['callee'].get('args', []) if a in ('true', 'false')]
+            ctx.verdict(ok, rule, '%s:%s:pass-%s' % (rule, q.top(f.name), cargs[0] if cargs else '?'), 'each pass is given the loop\'s own iteration index', f.where(bi), 'it argument %s' % facts.show(it_arg)[:40])
+
+
 def run(ctx):
-    pass
+    lib = ctx.lib
+    bound_form(ctx, 'C02.bound-form')
+    per_player_sums(ctx, 'C02.per-player-sum')
+    # regret_bound = max of the two; player_regret_bound selects by ind
+    rule = 'C02.total-is-max'
+    f = ctx.fn('lib', 'RegretBound::regret_bound', rule)
+    if f is not None:
+        r = strip_refs(q.ret_expr(f))
+        ok = q.is_call(r, 'max') and 'f64' in r[1] and {tuple(sorted(q.tags(a))) for a in r[2]} == {(0,), (1,)} and all('regrets' in facts.show(a) for a in r[2])
+        ctx.verdict(ok, rule, rule + ':RegretBound::regret_bound', 'the total bound is f64::max of the two per-player bounds', f.where(0), 'returns %s' % facts.show(r)[:80], breaks='the total bound is below one player\'s bound')
+    f = ctx.fn('lib', 'RegretBound::player_regret_bound', rule)
+    if f is not None:
+        r = strip_refs(q.ret_expr(f))
+        ok = q.is_call(r, 'ind') and strip_refs(r[2][0])[0] == 'param' and 'regrets' in facts.show(r[2][1])
+        ctx.verdict(ok, rule, rule + ':RegretBound::player_regret_bound', 'a player\'s bound is selected from the pair by that player\'s number', f.where(0), 'returns %s' % facts.show(r)[:80])
+    # Game::solve puts the solver's bounds into RegretBound unchanged
+    f = ctx.fn('lib', 'Game::<I, A>::solve', rule)
+    if f is not None:
+        nb = [(bi, t, e) for bi, t, e in q.calls_named(f, 'new') if 'RegretBound' in e[1]]
+        if not nb:
+            ctx.anchor_lost(rule, 'Game::solve: RegretBound::new')
+        for bi, t, e in nb:
+            a = strip_refs(e[2][0])
+            ok = a[0] == 'field' and a[2] == '0' and a[1][0] == 'var'
+            ctx.verdict(ok, rule, rule + ':solve-wraps-solver-bounds', 'Game::solve wraps the pair of bounds returned by the solver unchanged', f.where(bi), 'argument %s' % facts.show(a)[:60])
+    # initial value INFINITY
+    rule = 'C02.initial-infinite'
+    n = 0
+    for g in lib.non_test_fns():
+        if g.is_closure or not g.name.startswith(('solve::vanilla::solve_generic', 'solve::external::solve_external')):
+            continue
+        inf = False
+        for bi, si, st in g.assigns():
+            e = g.rvalue_expr(st['rv'], bi)
+            if e[0] == 'repeat' and is_const(e[1], float('inf')) and e[2] == '2':
+                inf = True
+        n += 1
+        ctx.touch(g)
+        ctx.verdict(inf, rule, '%s:%s' % (rule, g.name), 'both bounds start as f64::INFINITY (infinite exactly when no iteration ran, given C09.O3)', g.where(0), 'initialised with [INFINITY; 2]: %s' % inf)
+    if n < 4:
+        ctx.anchor_lost(rule, 'solver entry functions', 'found %d of 4' % n)
